@@ -302,8 +302,11 @@ E2E_CASES = [
     "hx_select_e2e::sel::nest::Option<u8>", "hx_select_e2e::sel::nest::Vec<core::option::Option<u8>>", "hx_select_e2e::sel::nest::Vec<u8>",
     "hx_select_e2e::sel::nest::HashMap<u64, alloc::vec::Vec<u8>>", "hx_select_e2e::sel::nestc::Vec<core::option::Option<u8>>::1",
     "hx_select_e2e::sel::nestc::Option<u8>::2", "hx_select_e2e::sel::refs::String", "hx_select_e2e::sel::refs::&alloc::string::String",
+    "hx_select_e2e::sel::renamed_ty::u8", "hx_select_e2e::sel::renamed_ty::u16", "hx_select_e2e::sel::renamed_const::3",
+    "hx_select_e2e::sel::renamed_both::i64::6", "hx_select_e2e::sel::renamed_both::u8::5",
 ]
-E2E_INNER = ["hx_select_e2e::sel::nest", "hx_select_e2e::sel::nestc::Vec<core::option::Option<u8>>", "hx_select_e2e::sel::nestc::Option<u8>",
+E2E_INNER = ["hx_select_e2e::sel::renamed_ty", "hx_select_e2e::sel::renamed_both::u8", "hx_select_e2e::sel::original_ty::u8",
+             "hx_select_e2e::sel::original_const::3", "hx_select_e2e::sel::original_both::i64::6", "hx_select_e2e::sel::original_ty","hx_select_e2e::sel::nest", "hx_select_e2e::sel::nestc::Vec<core::option::Option<u8>>", "hx_select_e2e::sel::nestc::Option<u8>",
              "hx_select_e2e::sel::nest::Option<u8>>", "hx_select_e2e::sel::nest::Vec<Option<u8>>", "hx_select_e2e::sel::nestc::Option<u8>>::1",
              "hx_select_e2e::sel::nest::Vec<u8>>", "hx_select_e2e::sel::refs::&String", "hx_select_e2e::sel::refs::&'static String","hx_select_e2e::sel::quick", "hx_select_e2e::sel::quick::gen", "hx_select_e2e::sel::shape::String", "hx_select_e2e::sel::shape",
              "hx_select_e2e::sel::shape::Square", "hx_select_e2e::sel::fast::gen::i32", "hx_select_e2e::sel::shape::alloc::string::String::1",
@@ -312,6 +315,7 @@ E2E_INNER = ["hx_select_e2e::sel::nest", "hx_select_e2e::sel::nestc::Vec<core::o
              "hx_select_e2e::sel::r#type::r#loop", "hx_select_e2e::sel::no_args", "hx_select_e2e::sel::Grp::sub::x"]
 E2E_WORDS = ["top", "a", "b", "alpha", "beta", "Grp", "grp", "sub", "1", "10", "i32", "u8", "loop", "type", "renamed", "orig", "x",
              "with_args", "args", "gen", "sel", "opt", "inherit", "zzz", "no_args",
+             "renamed_ty", "original_ty", "original", "renamed", "renamed_both", "original_const",
              "quick", "fast", "alloc", "string", "String", "Square", "shape", "Vec", "gen",
              "u8, u8", "(1, 2)", "a,b", "a, b", "x, y", ", ", ",", "Pair<u8, i8>", "1, 2", "y"]
 # legitimate paths / fragments that are not valid regexes: only meaningful with --exact (or skip_exact)
